@@ -1,5 +1,6 @@
 """Value operations: truthiness, comparison, arithmetic, tag resolution (forking)."""
 import z3
+z3.set_param("smt.mbqi", False)
 
 from pyvc import values as vv
 from pyvc.values import (Val, V, VNone, NONE, VBool, VInt, VFloat, VStr, VBytes, VEnum, VRef, VVal, VTuple,
@@ -20,7 +21,7 @@ class OpsMixin(object):
         return False
     self.ctx.feas_calls += 1
     s = z3.Solver()
-    s.set('timeout', 1500)
+    s.set('timeout', 400)
     for c in st.pc:
       s.add(c)
     if cond is not None:
@@ -103,6 +104,8 @@ class OpsMixin(object):
       return VFloat(Val.f(t))
     if tag == 'str':
       return VStr(Val.s(t))
+    if tag == 'bytes':
+      return VBytes(Val.y(t))
     if tag == 'ref':
       return VRef(None, Val.r(t))
     if tag == 'type':
@@ -243,12 +246,12 @@ class OpsMixin(object):
       return z3.BoolVal(a.finfo is b.finfo and a.bound is b.bound)
     raise Unsupported('is on %r / %r' % (a, b))
 
-  SCALAR_TAGS = ('none', 'bool', 'int', 'float', 'str')
+  SCALAR_TAGS = ('none', 'bool', 'int', 'float', 'str', 'bytes')
 
   def views(self, st, v):
     """Non-forking case view of a value: [(cond, typed V)] or None when a non-scalar tag is possible."""
     if not isinstance(v, VVal):
-      if isinstance(v, (VNone, VBool, VInt, VFloat, VStr)):
+      if isinstance(v, (VNone, VBool, VInt, VFloat, VStr, VBytes)):
         return [(z3.BoolVal(True), v)]
       return None
     known = st.tags.get(v.t.get_id())
@@ -294,6 +297,8 @@ class OpsMixin(object):
 
   def _compare_pure(self, op, a, b):
     """Scalar comparison as a z3 Bool; None means TypeError."""
+    if isinstance(a, VBool) and isinstance(b, VBool) and op in ('==', '!='):
+      return a.t == b.t if op == '==' else a.t != b.t
     ia, ib = vv.as_intlike(a), vv.as_intlike(b)
     if ia is not None and ib is not None:
       return vv.cmp_int_int(op, ia, ib)
@@ -305,6 +310,8 @@ class OpsMixin(object):
       return vv.cmp_int_fp(op, ib, a.t, swapped=True)
     if isinstance(a, VStr) and isinstance(b, VStr):
       return vv.cmp_str_str(op, a.t, b.t)
+    if isinstance(a, VBytes) and isinstance(b, VBytes):
+      return vv.cmp_str_str(op, a.t, b.t)
     if op == '==':
       return z3.BoolVal(isinstance(a, VNone) and isinstance(b, VNone))
     if op == '!=':
@@ -312,6 +319,8 @@ class OpsMixin(object):
     return None
 
   def _compare(self, st, op, a, b):
+    if isinstance(a, VBool) and isinstance(b, VBool) and op in ('==', '!='):
+      return [(st, VBool(a.t == b.t if op == '==' else a.t != b.t))]
     ia, ib = vv.as_intlike(a), vv.as_intlike(b)
     if ia is not None and ib is not None:
       return [(st, VBool(vv.cmp_int_int(op, ia, ib)))]
